@@ -13,7 +13,7 @@ __CPROVER_ensures(self->_data.size == 4 && __CPROVER_is_fresh(self->_data.data, 
 /*@ C01 C06 : Point_copy.z-kept */ __CPROVER_ensures(VF_FBITS(self->_data.data[2]) == VF_FBITS(p->_data.data[2]))
 /*@ C01 C06 : Point_copy.residual-kept */ __CPROVER_ensures(VF_FBITS(self->_data.data[3]) == VF_FBITS(p->_data.data[3]))
 /*@ C01 C06 : Point_copy.name-length */ __CPROVER_ensures(self->_name.size == p->_name.size)
-/*@ C01 C06 : Point_copy.name-bytes */ __CPROVER_ensures(vf_gk <= p->_name.size ==> self->_name.data[vf_gk] == p->_name.data[vf_gk])
+/*@ C01 C06 : Point_copy.name-bytes */ __CPROVER_ensures(vf_gc <= p->_name.size ==> self->_name.data[vf_gc] == p->_name.data[vf_gc])
 /*@ C08 : Point_copy.name-not-shared */ __CPROVER_ensures(self->_name.data != p->_name.data && self->_data.data != p->_data.data)
 /*@ C01 C10 : Point_copy.nothrow */ __CPROVER_ensures(vf_exc == 0);
 
@@ -31,7 +31,7 @@ __CPROVER_requires(vf_exc == 0 && __CPROVER_rw_ok(self, sizeof(*self)) && __CPRO
 __CPROVER_assigns(*self)
 /*@ C01 C06 : Channel_copy.value-kept */ __CPROVER_ensures(VF_FBITS(self->_data) == VF_FBITS(channel->_data))
 /*@ C01 C06 : Channel_copy.name-length */ __CPROVER_ensures(self->_name.size == channel->_name.size)
-/*@ C01 C06 : Channel_copy.name-bytes */ __CPROVER_ensures(vf_gk <= channel->_name.size ==> self->_name.data[vf_gk] == channel->_name.data[vf_gk])
+/*@ C01 C06 : Channel_copy.name-bytes */ __CPROVER_ensures(vf_gc <= channel->_name.size ==> self->_name.data[vf_gc] == channel->_name.data[vf_gc])
 /*@ C08 : Channel_copy.name-not-shared */ __CPROVER_ensures(self->_name.data != channel->_name.data)
 /*@ C01 C10 : Channel_copy.nothrow */ __CPROVER_ensures(vf_exc == 0);
 
